@@ -95,7 +95,12 @@ func RunTail(w *World, adv *Adversary, p *Profile, res *Result) {
 	for iter := 0; iter < 4000; iter++ {
 		// zero-latency phase: everything in flight is delivered, in emission order
 		for guard := 0; len(w.Pool) > 0 && guard < 20000; guard++ {
-			f := w.TakeFlight(0)
+			// any order among the in-flight messages is "delivered before the next timer"
+			i := 0
+			if w.Rng.Intn(2) == 0 {
+				i = w.Rng.Intn(len(w.Pool))
+			}
+			f := w.TakeFlight(i)
 			if f.Msg != nil && f.Msg.H > w.Cfg.MaxH {
 				continue
 			}
